@@ -645,6 +645,17 @@ def match_finding(vio: dict, findings: list[dict]) -> typing.Optional[dict]:
     return None
 
 
+def run_seed_isolated(job) -> dict:
+    """One history = one process tree grown from the worker's frozen zygote image: what the worker ran before (and so
+    the object addresses its children would inherit) has no say in this history."""
+    from detsim import runner as runmod  # pylint: disable=import-outside-toplevel
+
+    try:
+        return runmod.fork_run(run_seed, job, real_timeout=560)
+    except runmod.RunFailed as err:
+        raise base.HarnessError(str(err)[:1500]) from None
+
+
 def main(argv: list[str]) -> int:
     import argparse  # pylint: disable=import-outside-toplevel
 
@@ -676,7 +687,7 @@ def main(argv: list[str]) -> int:
     base.clean_replays(PROP)
     start = time.monotonic()
     jobs = [seed0 * 10000 + i for i in range(nseeds)]
-    results, errors, exhausted = base.sweep(run_seed, jobs, budget, per_item_limit_s=600)
+    results, errors, exhausted = base.sweep(run_seed_isolated, jobs, budget, per_item_limit_s=600)
     base.emit_digests(results)
     findings = base.open_findings(PROP)
     stats: collections.Counter = collections.Counter()
